@@ -140,18 +140,18 @@ func isKnown(prop, sig string) bool {
 // evidence recorder (per process)
 
 type legRec struct {
-	Prop        string           `json:"property"`
-	Leg         string           `json:"leg"`
-	Evaluations int              `json:"evaluations"`
-	Nontrivial  int              `json:"nontrivial"`
-	Hashes      []uint64         `json:"hashes"` // distinct non-trivial fingerprints
-	Labels      map[string]int   `json:"labels"`
-	Samples     []any            `json:"samples"`
-	Known       map[string]int   `json:"known"`
+	Prop        string            `json:"property"`
+	Leg         string            `json:"leg"`
+	Evaluations int               `json:"evaluations"`
+	Nontrivial  int               `json:"nontrivial"`
+	Hashes      []uint64          `json:"hashes"` // distinct non-trivial fingerprints
+	Labels      map[string]int    `json:"labels"`
+	Samples     []any             `json:"samples"`
+	Known       map[string]int    `json:"known"`
 	KnownMsg    map[string]string `json:"known_msg"`
-	Violation   *savedViolation  `json:"violation,omitempty"`
-	Exhaustive  bool             `json:"exhaustive,omitempty"`
-	Notes       []string         `json:"notes,omitempty"`
+	Violation   *savedViolation   `json:"violation,omitempty"`
+	Exhaustive  bool              `json:"exhaustive,omitempty"`
+	Notes       []string          `json:"notes,omitempty"`
 	hashSet     map[uint64]struct{}
 	frozen      bool
 }
@@ -347,6 +347,10 @@ func runCase[C any](s Spec[C], c C, x *Ctx) {
 	s.Run(c, x)
 }
 
+// PanicSite is panicSite for checks that recover panics themselves (call it with debug.Stack()
+// taken inside the deferred function).
+func PanicSite(stack []byte) string { return panicSite(stack) }
+
 // panicSite extracts the innermost non-runtime function of a stack dump as signature.
 func panicSite(stack []byte) string {
 	lines := strings.Split(string(stack), "\n")
@@ -432,9 +436,21 @@ func Check[C any](t *testing.T, s Spec[C]) {
 			fmt.Printf("VIOLATION-FOUND property=%s leg=%s sig=%s replay=%s\n", s.Prop, s.Leg, last.Violation.Sig, p)
 		}
 	}()
+	curFile := ""
+	if os.Getenv("VERIF_TRACK_CASE") != "" && os.Getenv("VERIF_EV_OUT") != "" {
+		curFile = os.Getenv("VERIF_EV_OUT") + ".cur"
+	}
 	rapid.Check(t, func(rt *rapid.T) {
 		c := s.Gen(rt)
 		x := &Ctx{prop: s.Prop}
+		if curFile != "" {
+			// the case in flight, for the driver: if the process dies (fatal runtime error, a panic on
+			// a goroutine the harness cannot guard) this file becomes the replay
+			cb, _ := json.Marshal(c)
+			rf := &replayFile{Property: s.Prop, Leg: s.Leg, Test: t.Name(), Violation: Violation{Sig: "process-dies", Msg: "the test process died while this case was running"}, Case: cb}
+			b, _ := json.Marshal(rf)
+			os.WriteFile(curFile, b, 0o644)
+		}
 		runCase(s, c, x)
 		r.commit(x, func() any { return render(c) })
 		if x.viol != nil {
